@@ -133,4 +133,21 @@ theorem walk_path_inj (s : SortBy) (e : Elem) (he : e.Inv = true) : ∀ (path tr
       exact walk_path_inj s c.2 (Inv_children he hc) _ _ en en' hen hen' hp
 termination_by sizeOf e
 
+/-- the entry of a struct-typed child of an entry of the walk is itself an entry of the walk -/
+theorem child_entry_mem (s : SortBy) (en : Entry) (c : Nec × Elem) (hcm : c ∈ en.elem.children) (hto : c.2.textOnly = false)
+    (e : Elem) : ∀ (path trace : List Name), en ∈ walk s path trace e →
+      (⟨en.path ++ [c.2.name], en.trace ++ [pascal c.2.name], c.2⟩ : Entry) ∈ walk s path trace e := by
+  intro path trace h
+  rw [mem_walk] at h ⊢
+  rcases h with h | ⟨d, hd, htd, hend⟩
+  · right
+    rw [h] at hcm
+    simp only at hcm
+    refine ⟨c, hcm, hto, ?_⟩
+    rw [h, mem_walk]; left; rfl
+  · have := sizeOf_child_lt hd
+    exact Or.inr ⟨d, hd, htd, child_entry_mem s en c hcm hto d.2 _ _ hend⟩
+termination_by sizeOf e
+
+
 end Xsg
